@@ -26,7 +26,14 @@ enum Step {
     /// the same kind of query through the second entry point: `GRLQueryExecutor::execute` with a GRLQuery that carries
     /// its own configuration (the executor applies it to the engine before asking)
     QueryViaExecutor(GoalQ, u8, Cfg),
+    /// Two neighbouring string facts B.s<i> = X and B.s<i+1> = Y are folded into ONE fact B.s<i> whose text spells the
+    /// other fact in the k-th of several renderings (`X";B.s1="Y`, `X");B.s1=String("Y`, ...), and B.s<i+1> is removed:
+    /// a different store that a careless fingerprint renders like the old one
+    Inject(usize, usize),
 }
+
+/// {X} / {Y}: the two values, {K}: the name of the second fact
+const INJECT_TEMPLATES: [&str; 6] = ["{X}\";{K}=\"{Y}", "{X}\");{K}=String(\"{Y}", "{X}\",{K}:\"{Y}", "{X};{K}={Y}", "{X}\", \"{K}\": \"{Y}", "{X}\n{K}={Y}"];
 
 fn spell(g: &GoalQ, style: u8) -> String {
     let t = g.text();
@@ -90,6 +97,18 @@ fn gen_history(s: &mut Src, kb: &Kb, cfg0: &Cfg) -> Vec<Step> {
         }
         steps.insert(pos, Step::SetConfig(c));
     }
+    // one history in four folds two string facts into one look-alike and repeats the latest query right after (drawn last)
+    if s.chance(1, 4) {
+        let qs: Vec<usize> = steps.iter().enumerate().filter(|(_, x)| matches!(x, Step::Query(..))).map(|(i, _)| i).collect();
+        if !qs.is_empty() {
+            let at = qs[s.below(qs.len())];
+            let again = steps[at].clone();
+            let i = s.below(NB - 1);
+            let k = s.below(INJECT_TEMPLATES.len());
+            steps.insert(at + 1, Step::Inject(i, k));
+            steps.insert(at + 2, again);
+        }
+    }
     // one history in three asks one of its queries through GRLQueryExecutor (drawn last)
     if s.chance(1, 3) {
         let qs: Vec<usize> = steps.iter().enumerate().filter(|(_, x)| matches!(x, Step::Query(..))).map(|(i, _)| i).collect();
@@ -136,6 +155,7 @@ pub fn run(s: &mut Src, ctx: &mut Ctx) -> Verdict {
         Step::RetractDerivedInRete => "retract-derived-in-rete".to_string(),
         Step::SetConfig(c) => format!("set_config({:?})", c),
         Step::QueryViaExecutor(g, st, c) => format!("GRLQueryExecutor::execute(goal `{}`, {:?})", spell(g, *st), c),
+        Step::Inject(i, k) => format!("fold B.s{} and B.s{} into one string fact (template {:?})", i, i + 1, INJECT_TEMPLATES[*k]),
     }).collect::<Vec<_>>().join("; ")));
     let cfg_initial = cfg.clone();
     let mut cfg = cfg;
@@ -156,6 +176,19 @@ pub fn run(s: &mut Src, ctx: &mut Ctx) -> Verdict {
                 engine.set_config(c.to_engine());
                 cfg = c.clone();
                 reconfigured = true;
+            }
+            Step::Inject(i, k) => {
+                let text = |f: &rust_rule_engine::Facts, key: &str, dflt: &str| match f.get(key) {
+                    Some(rust_rule_engine::types::Value::String(t)) => t,
+                    _ => dflt.to_string(),
+                };
+                let (k0, k1) = (format!("B.s{}", i), format!("B.s{}", i + 1));
+                let (x, y) = (text(&facts, &k0, "a"), text(&facts, &k1, "b"));
+                // make sure the store BEFORE the fold holds both facts (so that the two stores can render alike)
+                let folded = INJECT_TEMPLATES[*k].replace("{X}", &x).replace("{K}", &k1).replace("{Y}", &y);
+                facts.set(&k0, rust_rule_engine::types::Value::String(folded));
+                facts.remove(&k1);
+                ctx.label("two-string-facts-folded-into-a-look-alike");
             }
             Step::FreshEqualStore => {
                 let copy = from_facts(&facts);
